@@ -7,7 +7,7 @@ RULE = ("Hypothesis-generated command histories (batches of 0-4 assignments with
         "resources, suspensions legal or not, idle ticks, bad commands) interpreted against a real Executor and an "
         "independent ledger model in lock-step; after every tick: free + allocated(active+suspending) == capacity per "
         "pool from the implementation's own figures, free figures equal the model's (allocation returned exactly once, "
-        "in the tick of completion / kill / end of suspension), overselling batches raise and leave the pool untouched. "
+        "in the tick of completion / kill / end of suspension), overselling batches raise and leave the pool untouched; the same conservation monitor runs over every tick of generated full simulations under all shipped schedulers and a custom tape scheduler. "
         "Non-trivial = episode with >= 1 OOM failure, >= 1 finished suspension and >= 1 batch of >= 2 containers; "
         "distinct = sha1 of the case JSON")
 ASSUMPTIONS = [
@@ -19,7 +19,8 @@ FLOORS = {"had_failure": 0.1, "suspension_finished": 0.03, "batch_ge2": 0.2, "re
 
 def plan(tier):
     n = 4000 if tier == "quick" else 120000
-    return [{"kind": "hypothesis", "examples": n}]
+    return [{"kind": "hypothesis", "examples": n},
+            {"kind": "hypothesis", "examples": 1000 if tier == "quick" else 40000, "module": "verif.checks.c03_sim", "shard_base": 100}]
 
 
 def strategy(tier):
@@ -27,4 +28,11 @@ def strategy(tier):
                      machine_spec("multi_pool", tier), machine_spec("twins", tier))
 
 
-run_case = make_run_case({"C03"}, lambda o: {"had_failure", "suspension_finished", "batch_ge2"} <= set(o.labels))
+_pool_run_case = make_run_case({"C03"}, lambda o: {"had_failure", "suspension_finished", "batch_ge2"} <= set(o.labels))
+
+
+def run_case(spec):
+    if "steps" not in spec:     # a full-simulation case (second part of the plan)
+        from verif.checks import c03_sim
+        return c03_sim.run_case(spec)
+    return _pool_run_case(spec)
